@@ -164,7 +164,7 @@ def judge(ctx, behs):
         raise vlib.Undecided("the driver's key/value tables do not agree with spec/Trie.tla")
     ctx.cov["distinct_contents_grouped"] = result.get("contents", 0)
     for a in info["aborts"]:
-        ctx.report("C13/GetEqualsModel/process_abort", vlib.save_behaviour_replay(ctx, "C13/GetEqualsModel/process_abort", bpath, a["b"], {}), a)
+        ctx.report("C13/NoPanic/process_abort", vlib.save_behaviour_replay(ctx, "C13/NoPanic/process_abort", bpath, a["b"], {}), a)
     return trace, result
 
 
